@@ -581,6 +581,125 @@ def expand_table_dispatch(tree, known_globals):
 
 
 # ---------------------------------------------------------------------------------------------------
+# N27b: a *new* constant table (module level or class level) consulted with .get() to pick a name or number that the statements
+# right after it use is the if/elif chain it replaced:
+#     v = T.get(S); if v is None: raise E; x = getattr(obj, v)(..)
+#  -> if S == k1: x = obj.c1(..) elif S == k2: .. else: raise E
+# (one arm per key, the statements that use v copied into each arm with v replaced by the constant, tests on constants folded,
+# getattr with a constant name written as the attribute)
+# ---------------------------------------------------------------------------------------------------
+
+class _ConstFold(ast.NodeTransformer):
+    def visit_Call(self, n):
+        self.generic_visit(n)
+        if isinstance(n.func, ast.Name) and n.func.id == 'getattr' and len(n.args) == 2 and not n.keywords and isinstance(n.args[1], ast.Constant) and \
+                isinstance(n.args[1].value, str) and n.args[1].value.isidentifier():
+            return ast.copy_location(ast.Attribute(value=n.args[0], attr=n.args[1].value, ctx=ast.Load()), n)
+        return n
+
+    @staticmethod
+    def _truth(t):
+        if isinstance(t, ast.Compare) and len(t.ops) == 1 and isinstance(t.left, ast.Constant) and isinstance(t.comparators[0], ast.Constant) and \
+                isinstance(t.ops[0], (ast.Is, ast.IsNot)) and (t.left.value is None or t.comparators[0].value is None):
+            same = t.left.value is None and t.comparators[0].value is None
+            return same if isinstance(t.ops[0], ast.Is) else not same
+        if isinstance(t, ast.UnaryOp) and isinstance(t.op, ast.Not):
+            v = _ConstFold._truth(t.operand)
+            return None if v is None else (not v)
+        if isinstance(t, ast.Constant) and (t.value is None or isinstance(t.value, (str, int))):
+            return bool(t.value)
+        return None
+
+    def fold_block(self, stmts):
+        out = []
+        for st in stmts:
+            st = self.visit(st)
+            if isinstance(st, ast.If):
+                tv = self._truth(st.test)
+                if tv is not None:
+                    out.extend(self.fold_block(st.body if tv else st.orelse))
+                    if out and isinstance(out[-1], (ast.Raise, ast.Return, ast.Continue, ast.Break)):
+                        break
+                    continue
+            out.append(st)
+            if isinstance(st, (ast.Raise, ast.Return, ast.Continue, ast.Break)):
+                break
+        return out
+
+
+def expand_table_get(tree, known_globals, known_classattrs):
+    tables = {}       # name -> Dict   (class-level tables by bare attribute name)
+    for st in tree.body:
+        if isinstance(st, ast.Assign) and len(st.targets) == 1 and isinstance(st.targets[0], ast.Name) and st.targets[0].id not in known_globals:
+            tables[st.targets[0].id] = st.value
+        if isinstance(st, ast.ClassDef):
+            for c in st.body:
+                if isinstance(c, ast.Assign) and len(c.targets) == 1 and isinstance(c.targets[0], ast.Name) and \
+                        '%s.%s' % (st.name, c.targets[0].id) not in known_classattrs:
+                    tables[c.targets[0].id] = c.value
+    tables = dict((k, v) for k, v in tables.items() if isinstance(v, ast.Dict) and v.keys and
+                  all(isinstance(x, ast.Constant) and isinstance(x.value, (str, int)) for x in v.keys) and
+                  all(isinstance(x, ast.Constant) and isinstance(x.value, (str, int)) for x in v.values))
+    if not tables:
+        return 0
+    count = [0]
+
+    def table_of(e):
+        if isinstance(e, ast.Name) and e.id in tables:
+            return tables[e.id]
+        if isinstance(e, ast.Attribute) and e.attr in tables and isinstance(e.value, ast.Name):
+            return tables[e.attr]
+        return None
+
+    def rewrite(fn, stmts):
+        for i, st in enumerate(stmts):
+            for fld in ('body', 'orelse', 'finalbody'):
+                b = getattr(st, fld, None)
+                if isinstance(b, list) and b and isinstance(b[0], ast.stmt) and not isinstance(st, (ast.FunctionDef, ast.ClassDef)):
+                    setattr(st, fld, rewrite(fn, b))
+            if not (isinstance(st, ast.Assign) and len(st.targets) == 1 and isinstance(st.targets[0], ast.Name) and isinstance(st.value, ast.Call) and
+                    isinstance(st.value.func, ast.Attribute) and st.value.func.attr == 'get' and not st.value.keywords and
+                    (len(st.value.args) == 1 or (len(st.value.args) == 2 and isinstance(st.value.args[1], ast.Constant) and st.value.args[1].value is None))):
+                continue
+            tab = table_of(st.value.func.value)
+            subj = st.value.args[0]
+            if tab is None or not _trivial(subj):
+                continue
+            v = st.targets[0].id
+            if sum(1 for x in ast.walk(fn) if isinstance(x, ast.Name) and x.id == v and isinstance(x.ctx, ast.Store)) != 1:
+                continue
+            rest = stmts[i + 1:]
+            uses = [k for k, r in enumerate(rest) if any(isinstance(x, ast.Name) and x.id == v for x in ast.walk(r))]
+            if not uses or sum(1 for x in ast.walk(fn) if isinstance(x, ast.Name) and x.id == v and isinstance(x.ctx, ast.Load)) != \
+                    sum(1 for r in rest for x in ast.walk(r) if isinstance(x, ast.Name) and x.id == v):
+                continue
+            use = rest[:uses[-1] + 1]
+            # the subject must not be rebound by the statements that are copied
+            if _clash(set().union(*[_write_roots(r) for r in use]), _read_roots(subj)):
+                continue
+            arms = []
+            for k, c in list(zip(tab.keys, tab.values)) + [(None, ast.Constant(value=None))]:
+                body = _ConstFold().fold_block([_Subst({v: c}).visit(copy.deepcopy(r)) for r in use]) or [ast.Pass()]
+                test = ast.Compare(left=copy.deepcopy(subj), ops=[ast.Eq()], comparators=[copy.deepcopy(k)]) if k is not None else None
+                arms.append((test, body))
+            chain = arms[-1][1]
+            for test, body in reversed(arms[:-1]):
+                chain = [ast.If(test=test, body=body, orelse=chain)]
+            count[0] += 1
+            for x in chain:
+                ast.copy_location(x, st)
+            return stmts[:i] + chain + rewrite(fn, rest[uses[-1] + 1:])
+        return stmts
+
+    for fn in ast.walk(tree):
+        if isinstance(fn, ast.FunctionDef):
+            fn.body = rewrite(fn, fn.body)
+    if count[0]:
+        ast.fix_missing_locations(tree)
+    return count[0]
+
+
+# ---------------------------------------------------------------------------------------------------
 # N30: a new module-level constant (a string/number, or a tuple/list/set of such, possibly concatenated from other new constants)
 # is written out again where it is used: `form in _STRX_FORMS` -> `form in ('DW_FORM_strx', ...)`
 # ---------------------------------------------------------------------------------------------------
